@@ -77,8 +77,32 @@ pub fn exec(op: &str, a: &[&str]) -> Option<String> {
         }
         // c03.mut <seed> <nin> <nout> <idx> <type> <mutation>: wallet-signed P2PKH spend of input idx, then one mutation
         "c03.mut" => Some(mutated_spend(a[0].parse().unwrap(), a[1].parse().unwrap(), a[2].parse().unwrap(), a[3].parse().unwrap(), a[4].parse().unwrap(), a[5])),
+        // c03.multi <seed> <nout> <types> <mutated output index or ->: EVERY input is a wallet-signed P2PKH spend with its own
+        // sighash type (so several digests go through the one cache Tx::validate shares); optionally one output amount is
+        // changed after signing
+        "c03.multi" => Some(multi_signed(a[0].parse().unwrap(), a[1].parse().unwrap(), &list_u64(a[2]), a[3])),
         _ => None,
     }
+}
+
+fn multi_signed(seed: u64, nout: usize, types: &[u64], mutated: &str) -> String {
+    use chain_gang::network::Network;
+    use chain_gang::wallet::Wallet;
+    let mut rng = Rng::new(seed);
+    let ks = keys(); let nin = types.len();
+    let wallets: Vec<Wallet> = ks.iter().map(|k| { let sk = SigningKey::from_slice(k).unwrap(); let vk = VerifyingKey::from(&sk); Wallet::new(sk, vk, Network::BSV_Mainnet) }).collect();
+    let funding = Tx { version: 1, inputs: vec![TxIn { prev_output: OutPoint { hash: Hash256([7u8; 32]), index: 0 }, unlock_script: Script(vec![]), sequence: 0xffffffff }],
+        outputs: (0..nin).map(|i| TxOut { satoshis: 5000 + i as i64, lock_script: create_lock_script(&hash160(&pubkey(&ks[i % 3]))) }).collect(), lock_time: 0 };
+    let fh = funding.hash();
+    let mut tx = Tx { version: 2, inputs: (0..nin).map(|i| TxIn { prev_output: OutPoint { hash: fh, index: i as u32 }, unlock_script: Script(vec![]), sequence: 0xffffffff - rng.below(3) as u32 }).collect(),
+        outputs: (0..nout).map(|i| TxOut { satoshis: 100 + i as i64, lock_script: Script(vec![0x51, 0x75, 0x52 + (i as u8 % 3)]) }).collect(), lock_time: rng.below(50) as u32 };
+    // sign in a seed-dependent order (each signature uses a fresh cache inside the wallet; validation shares one)
+    let mut order: Vec<usize> = (0..nin).collect(); if rng.chance(1, 2) { order.reverse(); }
+    for i in order { if wallets[i % 3].sign_tx_input(&funding, &mut tx, i, types[i] as u8).is_err() { return "sign-error".into(); } }
+    if mutated != "-" { let j: usize = mutated.parse().unwrap(); tx.outputs[j].satoshis += 1; }
+    let mut utxos: LinkedHashMap<OutPoint, TxOut> = LinkedHashMap::new();
+    for (i, o) in funding.outputs.iter().enumerate() { utxos.insert(OutPoint { hash: fh, index: i as u32 }, o.clone()); }
+    match tx.validate(true, rng.chance(1, 2), &utxos, &HashSet::new()) { Ok(()) => "ok".into(), Err(_) => "err".into() }
 }
 
 pub const MUTATIONS: [&str; 21] = ["none", "version", "locktime", "in_seq_self", "in_seq_other", "in_prev_self", "in_prev_other", "in_add",
@@ -201,6 +225,17 @@ pub fn gen(tier: &str, rng: &mut Rng, out: &mut Vec<String>) {
             if (needs_two_in && nin < 2) || (needs_other_out && nout < 2) || (*m == "out_remove_last" && (nout < 2 || idx == nout - 1)) { continue; }
             out.push(format!("c03.mut {} {} {} {} {} {}", rng.next() % 1_000_000, nin, nout, idx, ty, m)); }
     } } } }
+    // (c2) several signed inputs with mixed types through the shared cache of Tx::validate
+    let tys = [0x41u64, 0x42, 0x43, 0xc1, 0xc2, 0xc3];
+    for a in tys { for b in tys { for nout in 1..=3usize {
+        out.push(format!("c03.multi {} {} {},{} -", rng.next() % 100000, nout, a, b));
+        for j in 0..nout { out.push(format!("c03.multi {} {} {},{} {}", rng.next() % 100000, nout, a, b, j)); }
+    } } }
+    let n3 = if thorough { 3000 } else { 300 };
+    for _ in 0..n3 { let nin = rng.range(3, 5) as usize; let nout = rng.range(1, 5) as usize;
+        let t: Vec<String> = (0..nin).map(|_| rng.pick(&tys).to_string()).collect();
+        let m = if rng.chance(1, 2) { "-".to_string() } else { rng.below(nout as u64).to_string() };
+        out.push(format!("c03.multi {} {} {} {}", rng.next() % 100000, nout, t.join(","), m)); }
     // (b) signatures: deterministic, strict DER, low S, verify under the signer's key (independent verifier in the driver)
     let ns = if thorough { 3000 } else { 300 };
     for i in 0..ns {
